@@ -18,7 +18,9 @@ def run(tier, replay=None):
         cases = [c for i, c in enumerate(cases) if i % 8 == k]
     hc = []
     meta = []
-    for c in cases:
+    for n, c in enumerate(cases):
+        if n % 5 == 0:        # every fifth layout ends without a final newline (spans unchanged)
+            c = dict(c, text=c["text"].rstrip("\n"))
         if c["inc"]:
             files = {"main.s": '.include "inc.s"\n', "inc.s": c["text"]}
             g = 2
